@@ -44,6 +44,7 @@ type kase struct {
 var numRe = regexp.MustCompile(`(^|[\s\[\(<>/])(\d+)(?:\b)`)
 var refRe = regexp.MustCompile(`\b(\d+) 0 R\b`)
 var delims = []string{"<<", ">>", "[", "]", "(", ")"}
+var arrRe = regexp.MustCompile(`\[[^\[\]]*\]`)
 
 var numValues = []string{"0", "-1", "2147483648", "9223372036854775807"}
 
@@ -74,6 +75,12 @@ func applyText(s string, f fault) string {
 			from = idx + len(f.Value)
 		}
 		return s[:idx] + s[idx+len(f.Value):]
+	case "array-to-ref":
+		// the Site-th bracketed array of the object becomes an indirect reference
+		m := arrRe.FindAllStringIndex(s, -1)
+		if f.Site < len(m) {
+			return s[:m[f.Site][0]] + f.Value + s[m[f.Site][1]:]
+		}
 	case "delim-add":
 		m := numSites(s)
 		if f.Site < len(m) {
@@ -89,7 +96,7 @@ func applyText(s string, f fault) string {
 type siteInfo struct {
 	ordinal              int
 	stream               bool
-	nums, refs           int
+	nums, refs, arrays   int
 	delimCount           map[string]int
 	dataLen              int
 	num                  int
@@ -102,7 +109,7 @@ func render(doc writers.LDoc, lay writers.Layout, faults []fault) ([]byte, []sit
 		if o.Stream {
 			text = o.Dict
 		}
-		si := siteInfo{ordinal: o.Ordinal, stream: o.Stream, nums: len(numSites(text)), refs: len(refRe.FindAllString(text, -1)), delimCount: map[string]int{}, dataLen: len(o.Data), num: o.Num}
+		si := siteInfo{ordinal: o.Ordinal, stream: o.Stream, nums: len(numSites(text)), refs: len(refRe.FindAllString(text, -1)), arrays: len(arrRe.FindAllString(text, -1)), delimCount: map[string]int{}, dataLen: len(o.Data), num: o.Num}
 		for _, d := range delims {
 			si.delimCount[d] = strings.Count(text, d)
 		}
@@ -112,7 +119,7 @@ func render(doc writers.LDoc, lay writers.Layout, faults []fault) ([]byte, []sit
 				continue
 			}
 			switch f.Kind {
-			case "number", "ref", "delim", "delim-add":
+			case "number", "ref", "delim", "delim-add", "array-to-ref":
 				if o.Stream {
 					o.Dict = applyText(o.Dict, f)
 				} else {
@@ -319,6 +326,11 @@ func pdfCatalogue(doc writers.LDoc, lay writers.Layout) []fault {
 		}
 		for _, d := range []string{"<<", "[", "(", ")", "]", ">>", "<", ">"} {
 			out = append(out, fault{Kind: "delim-add", Ordinal: si.ordinal, Site: si.ordinal % 3, Value: d + " "})
+		}
+		for s := 0; s < si.arrays; s++ {
+			for _, v := range []string{fmt.Sprintf("%d 0 R", si.num), "1 0 R", "2 0 R", "3 0 R", "9999 0 R"} {
+				out = append(out, fault{Kind: "array-to-ref", Ordinal: si.ordinal, Site: s, Value: v})
+			}
 		}
 		out = append(out, fault{Kind: "drop", Ordinal: si.ordinal}, fault{Kind: "dup", Ordinal: si.ordinal})
 		if si.stream {
@@ -537,6 +549,45 @@ func rawParsers(c *hx.Ctx, seed uint64, n int) {
 	}
 }
 
+// cmapExtremes: well-formed ToUnicode CMap programs whose codes, ranges and counts sit at
+// the edges of their integer types.
+func cmapExtremes(c *hx.Ctx, seed uint64, n int) {
+	r := hx.NewRng(seed ^ 0xc3a9)
+	codes := []string{"00", "FF", "0000", "FFFF", "FFFE", "000000", "FFFFFF", "00000000", "FFFFFFFF", "FFFFFF00", "FFFFFFFE", "7FFFFFFF", "80000000", "0041", "41", "D800", "DFFF", "10FFFF", "110000", "", "FFFFFFFFFF"}
+	dsts := []string{"0041", "FFFF", "D835DC00", "DBFFDFFF", "00660066", "FFFFFFFF", "", "0000", "DC00D800"}
+	for i := 0; i < n; i++ {
+		var b strings.Builder
+		b.WriteString("/CIDInit /ProcSet findresource begin\n12 dict begin\nbegincmap\n")
+		if r.Chance(3, 4) {
+			fmt.Fprintf(&b, "1 begincodespacerange\n<%s> <%s>\nendcodespacerange\n", hx.Pick(r, codes), hx.Pick(r, codes))
+		}
+		for k := r.Range(1, 3); k > 0; k-- {
+			switch r.Intn(3) {
+			case 0:
+				fmt.Fprintf(&b, "%s beginbfchar\n<%s> <%s>\nendbfchar\n", hx.Pick(r, []string{"1", "0", "4294967295", "-1", "100"}), hx.Pick(r, codes), hx.Pick(r, dsts))
+			case 1:
+				fmt.Fprintf(&b, "1 beginbfrange\n<%s> <%s> <%s>\nendbfrange\n", hx.Pick(r, codes), hx.Pick(r, codes), hx.Pick(r, dsts))
+			case 2:
+				fmt.Fprintf(&b, "1 beginbfrange\n<%s> <%s> [<%s> <%s>]\nendbfrange\n", hx.Pick(r, codes), hx.Pick(r, codes), hx.Pick(r, dsts), hx.Pick(r, dsts))
+			}
+		}
+		b.WriteString("endcmap\nend\nend\n")
+		s := b.String()
+		k := map[string]interface{}{"format": "cmap", "hex": hx.HexS(s)}
+		c.Current(k)
+		c.Guard("C02/cmap-extremes", k, 5, func() {
+			cm, err := font.ParseToUnicodeCMap(&core.Stream{Dict: core.Dict{}, Data: []byte(s)})
+			if err == nil && cm != nil {
+				cm.LookupString([]byte{0xFF, 0xFF, 0xFF, 0xFF, 0x00, 0x41})
+				cm.LookupString([]byte{0x41})
+			}
+		})
+		c.Rep.OracleChecks++
+		c.Count("cmap-extremes")
+		c.Case(s, true)
+	}
+}
+
 func Run(c *hx.Ctx) {
 	c.Rep.Rule = "valid documents of all seven formats from the harness writers (PDF in random physical layouts, DOCX, ODT, XLSX, PPTX, EPUB, HTML) x every single fault of the catalogue at every site (numbers -> 0,-1,2^31,2^63-1; references -> self/root/missing; delimiters removed/added; objects/members dropped/duplicated; stream data flipped/truncated; /Length, xref entries, /W, /Prev, /Size, trailer; truncation at token boundaries; targeted field rewrites) + sampled double faults + byte mutation + hostile token soup into the raw parsers; every case runs 5-6 public entry points under a 10 s deadline and a 3 GiB heap limit; every case is non-trivial"
 	xrefStreamOps(c)
@@ -568,6 +619,7 @@ func Run(c *hx.Ctx) {
 	}
 	htmlFaults(c, c.Seed, c.N(120, 1500))
 	rawParsers(c, c.Seed, c.N(1500, 60000))
+	cmapExtremes(c, c.Seed, c.N(1500, 60000))
 }
 
 func Replay(c *hx.Ctx, m map[string]interface{}) {
